@@ -46,6 +46,16 @@ type replayPlan struct {
 	terms  []inputTerm
 	seen   map[string]bool
 	reason string
+	decls  map[string]Sort // initial-heap constants the terms mention
+}
+
+func (p *replayPlan) h0(key string, leaf Leaf) string {
+	name := "H0_" + smtSym(key)
+	if p.decls == nil {
+		p.decls = map[string]Sort{}
+	}
+	p.decls[name] = p.c.heapSort(key, leaf)
+	return name
 }
 
 func (p *replayPlan) add(key, term string) {
@@ -61,8 +71,7 @@ func h0(key string) string { return "H0_" + smtSym(key) }
 // the given SMT terms (as strings).
 func (p *replayPlan) planValue(path string, t types.Type, leaves []string, depth int) {
 	if depth > 3 {
-		p.reason = "input nesting too deep"
-		return
+		return // deeper structure keeps zero values (nil pointers / nil slices) in the replay
 	}
 	lay := layout(t)
 	if len(lay) != len(leaves) {
@@ -99,7 +108,7 @@ func (p *replayPlan) planValue(path string, t types.Type, leaves []string, depth
 		for i := 0; i < maxReplayElems; i++ {
 			var ls []string
 			for k := range elay {
-				ls = append(ls, fmt.Sprintf("(select (select %s %s) (+ %s %d))", h0(arrKey(el, k)), leaves[0], leaves[1], i))
+				ls = append(ls, fmt.Sprintf("(select (select %s %s) (+ %s %d))", p.h0(arrKey(el, k), elay[k]), leaves[0], leaves[1], i))
 			}
 			p.planValue(fmt.Sprintf("%s[%d]", path, i), el, ls, depth+1)
 		}
@@ -113,7 +122,7 @@ func (p *replayPlan) planValue(path string, t types.Type, leaves []string, depth
 		elay := layout(el)
 		var ls []string
 		for k := range elay {
-			ls = append(ls, fmt.Sprintf("(select %s %s)", h0(objKey(el, k)), leaves[0]))
+			ls = append(ls, fmt.Sprintf("(select %s %s)", p.h0(objKey(el, k), elay[k]), leaves[0]))
 		}
 		p.planValue(path+"->", el, ls, depth+1)
 	case *types.Array:
@@ -122,6 +131,9 @@ func (p *replayPlan) planValue(path string, t types.Type, leaves []string, depth
 			p.planValue(fmt.Sprintf("%s[%d]", path, i), u.Elem(), leaves[int(i)*w:int(i+1)*w], depth)
 		}
 	case *types.Interface, *types.Map, *types.Chan, *types.Signature:
+		if strings.Contains(path, ".") {
+			return // a field of such a type keeps its zero value in the replay
+		}
 		p.reason = "input of type " + t.String() + " cannot be rebuilt from a model"
 	default:
 		p.reason = "unsupported input type " + t.String()
@@ -230,6 +242,9 @@ func (b *valueBuilder) expr(path string, t types.Type, depth int) string {
 		}
 		ln, _ := b.num(path + "#len")
 		cp, _ := b.num(path + "#cap")
+		if ln < 0 {
+			ln = 0
+		}
 		if ln > maxReplayElems {
 			b.reason = fmt.Sprintf("slice %s has %d elements in the model (more than %d)", path, ln, maxReplayElems)
 			ln = maxReplayElems
@@ -270,6 +285,8 @@ func (b *valueBuilder) expr(path string, t types.Type, depth int) string {
 			es = append(es, b.expr(fmt.Sprintf("%s[%d]", path, i), u.Elem(), depth))
 		}
 		return ts + "{" + strings.Join(es, ", ") + "}"
+	case *types.Interface, *types.Map, *types.Chan, *types.Signature:
+		return "*new(" + ts + ")"
 	}
 	b.reason = "cannot render " + ts
 	return "*new(" + ts + ")"
@@ -287,10 +304,12 @@ func (e *Engine) replay(sv *Solver, u *Unit, o *Obligation, prop string) replayR
 	if pkg == nil {
 		return replayResult{Verdict: "not-replayable", Detail: "package not loaded"}
 	}
+	imports := map[string]string{}
 	qual := func(p *types.Package) string {
 		if p == fn.Pkg.Pkg {
 			return ""
 		}
+		imports[p.Path()] = p.Name()
 		return p.Name()
 	}
 	// 1. plan the inputs
@@ -348,13 +367,47 @@ func (e *Engine) replay(sv *Solver, u *Unit, o *Obligation, prop string) replayR
 		gv.WriteString(t.term + " ")
 	}
 	gv.WriteString("))\n")
-	q = "(set-option :produce-models true)\n" + q + gv.String()
-	file := sv.file(q)
-	defer os.Remove(file)
+	var extra strings.Builder
+	for name, srt := range plan.decls {
+		if !c.declared[name] {
+			fmt.Fprintf(&extra, "(declare-const %s %s)\n", name, srt)
+		}
+	}
+	q = strings.Replace(q, "(set-logic ALL)\n", "(set-logic ALL)\n(declare-sort Str0 0)\n", 1)
+	// declarations must follow the sort declarations of the prelude: put them right before the final assertions
+	if i := strings.LastIndex(q, "(assert "); i >= 0 {
+		j := strings.LastIndex(q[:i], "(assert ")
+		if j < 0 {
+			j = i
+		}
+		q = q[:j] + extra.String() + q[j:]
+	}
+	// prefer small inputs: first ask for a model with short slices and strings
+	base := q
 	var r solveResult
-	for _, sp := range solvers {
-		if sp.name == o.Backend {
-			r = runSolver(sp, file, sv.timeoutS)
+	bounds := []int{1, 2, 4, -1}
+	for attempt := 0; attempt < len(bounds); attempt++ {
+		q = base
+		if bounds[attempt] >= 0 {
+			// lengths within the unfolding fuel make models of recursive ghost functions exact
+			var small strings.Builder
+			for _, t := range plan.terms {
+				if strings.HasSuffix(t.key, "#len") {
+					fmt.Fprintf(&small, "(assert (<= %s %d))\n", t.term, bounds[attempt])
+				}
+			}
+			q = strings.Replace(q, "(check-sat)\n", small.String()+"(check-sat)\n", 1)
+		}
+		q = "(set-option :produce-models true)\n" + q + gv.String()
+		file := sv.file(q)
+		for _, sp := range solvers {
+			if sp.name == o.Backend {
+				r = runSolver(sp, file, min(sv.timeoutS, 15))
+			}
+		}
+		os.Remove(file)
+		if r.answer == "sat" {
+			break
 		}
 	}
 	if r.answer != "sat" {
@@ -371,6 +424,16 @@ func (e *Engine) replay(sv *Solver, u *Unit, o *Obligation, prop string) replayR
 		return replayResult{Verdict: "not-replayable", Detail: vb.reason}
 	}
 	src, err := e.replaySource(blk, fn, o, vb, argExprs, qual)
+	if err == nil {
+		var imp strings.Builder
+		for path, name := range imports {
+			if path == "time" || path == "fmt" || path == "os" || path == "testing" {
+				continue
+			}
+			fmt.Fprintf(&imp, "\t%s %q\n", name, path)
+		}
+		src = strings.Replace(src, "import (\n", "import (\n"+imp.String(), 1)
+	}
 	if err != nil {
 		return replayResult{Verdict: "not-replayable", Detail: err.Error()}
 	}
